@@ -49,8 +49,13 @@ LEVEL_NOTE = "proved for rule prefixes ending in '/' on symlink-free capsules; a
 TECHNIQUE = "Lean 4 proofs over executable models of CertificateAuth, its configuration layer, canonical_path and the static handler + differential testing of the real components (in-process, via the server protocol, and end to end over the PyOpenSSL pump with real client certificates) with a reference-policy oracle"
 
 INDICES = ["index.gmi", "index.gemini"]
+# certificates 1..3 (RSA, EC, Ed25519) and 4..6, their look-alikes (same names and serial number, other key);
+# allow-lists mostly name the originals
+LISTED = [1, 2, 3, 1, 2, 3, 1, 2, 3, 4, 5]
+PRESENTED = [None, None, None, 1, 2, 3, 1, 2, 3, 4, 5, 6]
 DIRMARK = "zzdir"
-SEG = ["app", "app2", "ap", "public", "pub", "admin", "docs", "s", "x y", "é", "index.gmi", "index.gemini", "secret.gmi", "a.txt", "index", "app.gmi"]
+SEG = ["app", "app2", "ap", "public", "pub", "admin", "docs", "s", "x y", "é", "index.gmi", "index.gemini", "secret.gmi", "a.txt", "index", "app.gmi",
+       "e\u0301", "\u00e9x", "\u2126"]      # (not in normalisation form C: locations and prefixes are compared code point by code point)
 
 
 # ----------------------------------------------------------------------------------------------
@@ -121,7 +126,7 @@ def gen_rules(rnd: random.Random, ents):
         # public area nested in a protected one, in both orders
         inner = rnd.choice([d for d in dlocs if d != "/"])
         outer = inner.rstrip("/").rsplit("/", 1)[0] + "/"
-        pair = [[inner, False, None], [outer, True, rnd.choice([None, [2], [1, 3]])]]
+        pair = [[inner, False, None], [outer, True, rnd.choice([None, [2], [1, 3], [1, 5]])]]
         rules += pair if rnd.random() < 0.7 else pair[::-1]
     for _ in range(rnd.choice([0, 1, 1, 2, 2, 2, 3, 3, 4]) if len(rules) < 2 or rnd.random() < 0.3 else 0):
         k = rnd.random()
@@ -149,13 +154,13 @@ def gen_rules(rnd: random.Random, ents):
         elif c < 0.45:
             req, fps = True, None
         elif c < 0.62:
-            req, fps = True, sorted(rnd.sample([1, 2, 3], rnd.randint(1, 2)))
+            req, fps = True, sorted(set(rnd.sample(LISTED, rnd.randint(1, 2))))
         elif c < 0.75:
-            req, fps = False, sorted(rnd.sample([1, 2, 3], rnd.randint(1, 2)))
+            req, fps = False, sorted(set(rnd.sample(LISTED, rnd.randint(1, 2))))
         elif c < 0.86:
             req, fps = rnd.choice([True, False]), []                 # empty allow-list: nobody
         else:
-            req, fps = None, rnd.choice([None, [], [rnd.randint(1, 3)]])   # require_cert not written
+            req, fps = None, rnd.choice([None, [], [rnd.choice(LISTED)]])   # require_cert not written
         rules.append([pre, req, fps])
     return rules
 
@@ -213,17 +218,27 @@ def gen_requests(rnd: random.Random, ents, rules, n: int, pumped: int, proto: in
     for i in range(n):
         loc, is_dir = res[i % len(res)] if i < 2 * len(res) else rnd.choice(res)
         sp = spell(rnd, loc, is_dir, rules) if i >= len(res) else (loc if rnd.random() < 0.5 else spell(rnd, loc, is_dir, rules))
-        cid = rnd.choice([None, None, 1, 2, 3])
+        cid = rnd.choice(PRESENTED)
         reqs.append([sp, cid, "f"])
     # every "<x>/" rule prefix is also requested as it stands and without its slash
     for r in rules or []:
         if r[0].startswith("/") and T.url_path(r[0])[0] == "ok":
             for sp in (r[0], r[0].rstrip("/") or "/"):
-                reqs[rnd.randrange(n)] = [sp, rnd.choice([None, None, 1, 2]), "f"]
+                reqs[rnd.randrange(n)] = [sp, rnd.choice([None, None, 1, 2, 4]), "f"]
     for j in rnd.sample(range(n), min(n, proto + pumped)):
         reqs[j][2] = "e" if pumped > 0 else "p"
         pumped -= 1
-    return reqs
+    # connections are not independent of each other inside one server process: whenever a certificate is
+    # presented to the real protocol, the certificate that shares its names and serial number (but not its
+    # key) is presented too, on the connection before or after it
+    out = []
+    for sp, cid, mode in reqs:
+        if mode != "f" and cid is not None:
+            pair = [[sp, P.partner(cid), mode], [sp, cid, mode]]
+            out += pair if rnd.random() < 0.5 else pair[::-1]
+        else:
+            out.append([sp, cid, mode])
+    return out
 
 
 # ----------------------------------------------------------------------------------------------
@@ -295,7 +310,7 @@ def build_auth(case, built: T.Built):
         cfg = CertificateAuthConfig(path_rules=[
             CertificateAuthPathRule(prefix=pre, require_cert=bool(req), allowed_fingerprints=(None if fps is None else {P.fingerprint(i) for i in fps}))
             for pre, req, fps in rules])
-    back = {P.fingerprint(i): i for i in (1, 2, 3)}
+    back = {P.fingerprint(i): i for i in P.CERT_IDS}
     seen = None if cfg is None else [[r.prefix, bool(r.require_cert),
                                       None if r.allowed_fingerprints is None else sorted(back.get(x, x) for x in r.allowed_fingerprints)]
                                      for r in cfg.path_rules]
